@@ -44,6 +44,10 @@ ExtractOK(e) ==
     IN /\ dl >= e.hdr + 1
        /\ e.srv = C!Dec(e.codec, Undot(datapart))
 
+\* an upstream packet of a real session on a clean path, built to need a given number of chunks with a given number of
+\* bytes in the last one (down to a single byte): every chunk's data part was extracted, so the packet came out whole
+UpPacketOK(e) == e.written
+
 HInit == n = 0
 Spec == HInit /\ [][FALSE]_n
 =============================================================================
